@@ -86,7 +86,8 @@ def _task(args):
             install.uninstall()              # bounded stand-ins run the pristine library
             mod = importlib.import_module('bounded.' + name)
             r = mod.run(tier=extra['tier'], seed=extra['seed'], budget_s=extra['budget_s'], jobs=extra.get('jobs', 1))
-            r.update(task='bounded', module=name, seconds=round(time.time() - t0, 2), bound=getattr(mod, 'BOUND', ''))
+            r.update(task='bounded', module=name, seconds=round(time.time() - t0, 2), bound=getattr(mod, 'BOUND', ''),
+                     clause_properties=getattr(mod, 'CLAUSE_PROPERTIES', None))
             return r
     except BaseException as e:
         if isinstance(e, (KeyboardInterrupt, SystemExit)):
@@ -310,6 +311,9 @@ def check(prop, tier, seed, jobs):
     bviol = []
     for r in bres:
         only = EXTRA_BOUNDED.get(r['module'], {}).get(prop)
+        cp = r.get('clause_properties')
+        if only is None and cp:
+            only = [cl for cl, ps in cp.items() if prop in ps]
         for f in r.get('failures', []):
             if only is not None and f['clause'] not in only:
                 continue
